@@ -308,7 +308,7 @@ def tlc_validate(d, trace_path, invariants, timeout=900, skip=(), name="Trace", 
     Returns dict(ok, inv, b, states, transitions, secs, deadlock, outp); b is the 1-based global index."""
     n = count_lines(trace_path)
     if shards is None:
-        shards = max(1, min(WORKERS // 2, n // 2000 + 1))
+        shards = max(1, min(WORKERS // 2, n // 150 + 1))
     parts = _split_trace(trace_path, d, shards)
     cfgtext = "INIT TVInit\nNEXT TraceNext\nCHECK_DEADLOCK TRUE\n" + constants
     for inv in invariants:
